@@ -57,6 +57,85 @@ CHECKS = {
          "Tied to the code by a decimal-lattice sweep compared bit for bit with the Lean Float transcription, the full presence/sign table for both grids, defaults, and row counts of written tables.",
     ref="4 C11", technique="Lean 4 theorems (case analysis + real-analysis error bound) + bit-exact Float correspondence sweep",
     note=NOTE_COMMON + "Trusted: Lean Float = IEEE binary64 with correctly rounded + - * / (decide +kernel witnesses), Python float(str) correctly rounded; RelErr model of rounding for the real-number theorems."),
+ "C06": dict(
+    text="Theorems (Lean, over the reals) about terms REGENERATED from potentialfunctions.py on every run: C06_<form> for buck, bornmayer, coul, constant, zero, exponential, exp_spline, "
+         "hbnd, lj, morse, sqrt, zbl (code = documented formula for all parameters and r), C06_signatures (documented argument order), C06_polynomial (any order). Tang-Toennies is compared "
+         "numerically with the documented formula (partial). Translator validated each run by Float evaluation against Python; four access routes must return identical doubles.",
+    ref="4 C06", technique="Python->Lean translation of method bodies + Lean/Mathlib identities; numeric failing-input search against documented formulas",
+    note=NOTE_COMMON + "Statements over R (binary64 and libm not modelled). Documented formulas are hand transcriptions. Known finding: reference manual prints another ZBL constant set."),
+ "C07": dict(
+    text="Engine theorem hasDerivAt_evalR (symbolic derivative D is sound on its domain) and, about the regenerated terms: C07_<form>_d1/_d2 for ten built-in forms, Coulomb and ZBL up to a "
+         "proved 1e-14 literal-vs-closed-form factor, C07_plus/product/pow _d1/_d2 on the regenerated closure bodies with arbitrary operand functions, C07_trans, C07_polynomial_d1/_d2 "
+         "(every order, r=0 included). Numerical oracle (Richardson differences of the real callables) over random expressions to depth 3 through API and potable; fallback locality by "
+         "instrumented leaves.",
+    ref="4 C07", technique="reflective differentiation in Lean/Mathlib over translator output + numerical derivative oracle on the implementation",
+    note=NOTE_COMMON + "Over R. ZBL deriv2 and Tang-Toennies derivatives hold machine-expanded decimal coefficients (1e-14 from closed forms): numerical oracle only. SciPy table-form derivatives: C18."),
+ "C09": dict(
+    text="Theorems: C09_positional (stateful symbol-table evaluation = positional substitution for every acyclic set of custom forms; refinement proof), C09_cyclic_witness / "
+         "C09_positional_full_fails (recorded finding), C09_roundtrip (token-level parser: parse(render t) = t for all well-formed trees, any nesting), C09_default_range, C09_sum/product/pow/"
+         "trans/nesting (reduce semantics), C09_entry_order. Correspondence: real pyparsing+_descend_tree trees vs Lean parser, 6 layouts per definition, potable text vs Python-API "
+         "composition, custom form sets in exact arithmetic vs evalS/evalP, pymath table.",
+    ref="4 C09", technique="Lean refinement proof (stateful vs pure evaluator) + parser round-trip proof + differential/metamorphic correspondence",
+    note=NOTE_COMMON + "Token level only: pyparsing's character-level tokenisation and exprtk's parser/evaluation order are external libraries tied by correspondence (partial)."),
+ "C10": dict(
+    text="Theorems about the linear systems EXTRACTED from spline/__init__.py on every run: C10_exp_C2 and C10_buck4_C2 (a coefficient vector solving the generated 6x6 / 10x10 system gives "
+         "value/slope/curvature agreement at detach, attach and r_min, zero slope at r_min), C10_shift_pos, C10_exp_shape, C10_regions, C10_buck4_start/_end. numpy.linalg.solve is a "
+         "hypothesis whose residual on the real objects is measured each run; join conditions, regions, shift constant and the three construction routes are checked on the real callables.",
+    ref="4 C10", technique="translator-extracted matrices + Lean/Mathlib proof under a solver hypothesis + residual/numeric correspondence",
+    note=NOTE_COMMON + "Conditioning of the solve is not modelled (joins compared to 2e-6 relative)."),
+ "C12": dict(
+    text="Theorems: C12_purity / C12_interleaving (energy independent of prior symbol-table contents and of interleaved evaluations, all form sets), C12_order_only_through_extras, "
+         "C12_set_order_witness (the fixed defect), C12_sorted_order_example, C12_cache_idempotent. Correspondence: histories within a process (write twice, other models before/between, shuffled "
+         "evaluation orders, rebuild) byte-compared with fresh builds for all targets; potable entry point in fresh processes under 4/16 hash seeds incl. several --add-item options; static scan "
+         "of set iterations and mutable defaults against the accounted sites.",
+    ref="4 C12", technique="Lean state-independence proof + history/hash-seed differential runs + static scan",
+    note=NOTE_COMMON + "CPython dict order and cexprtk evaluation order trusted. Known finding: xlsx container timestamps (sheet contents compared)."),
+ "C13": dict(
+    text="Theorems: checkTuple_spec, C13_filter_eq_delete (filtered view = by-hand deletion, any entries/sets/mode), C13_sublist, C13_empty_*, C13_unknown_labels, C13_output_eq, "
+         "C13_views_independent (any op sequence), C13_mode_current; shipped-behaviour witnesses. Correspondence: four filtered lists, view sequences on one parser, tabulated bytes of filtered "
+         "view / potable --include/--exclude-species vs hand-edited file.",
+    ref="4 C13", technique="Lean list/state-machine proofs + differential correspondence incl. end-to-end bytes",
+    note=NOTE_COMMON + "wrapt.ObjectProxy attribute forwarding as observed."),
+ "C14": dict(
+    text="Theorems about the INI model (current configuration): C14_override_sets, C14_add_appends, C14_remove_removes, C14_rejects, C14_exists_mod_whitespace, C14_other_sections_untouched, "
+         "C14_sequence, C14_cli_last_wins, C14_list_once_partial (well-formed files), shipped witnesses. Correspondence: ConfigParser(overrides=, additional=) vs applyOps; by-hand edit of the file "
+         "text vs parsed content, tabulated bytes, --list-items, --item-value, rejection rules; explicit command-line scenarios.",
+    ref="4 C14", technique="Lean model of the INI/override layer + differential correspondence against hand-edited files",
+    note=NOTE_COMMON + "configparser line splitting is the standard library's. C14_list_once holds for files without repeated section names (readIni never produces others)."),
+ "C15": dict(
+    text="Theorems: C15_unused_neutral, C15_items_neutral_partial, C15_resolve_literal, C15_resolve_subst(_xref), C15_unresolved, C15_section_shadows_variable; shipped leak witness. "
+         "Correspondence: every option value resolved by the real parser vs Atsim.resolveVal; templated vs hand-substituted file bytes for pair/EAM/FS/table-form models; unused variables "
+         "whose names resemble keys of other sections.",
+    ref="4 C15", technique="Lean model of placeholder resolution + metamorphic byte comparison",
+    note=NOTE_COMMON + "ExtendedInterpolation is the standard library's (modelled, compared on every value)."),
+ "C16": dict(
+    text="Theorems: C16_spline_iff (spline() accepts exactly the well-formed definitions), C16_spline_rmin/_middle/_counts, C16_table_iff, C16_key_iff, C16_documented_targets, "
+         "C16_target_synonyms. Correspondence: 93 malformation/validity operators over four base models through Configuration and the potable entry point (exception class, exit status, "
+         "'configuration error - ' prefix, no table left) + generated spline/table/target/key inputs against the Lean decisions.",
+    ref="4 C16 / Appendix A", technique="Lean decision-procedure iff-theorems + catalogue-driven outcome-class correspondence",
+    note=NOTE_COMMON + "Errors raised inside exprtk are classified by the real library; command-line option syntax is out of scope."),
+ "C17": dict(category="proof",
+    text="Theorems: C17_buffered (any size, any fault position: nothing written before a failing evaluation), C17_buffered_complete, C17_adp_three_writes, shipped witnesses for the fixed GULP/ADP "
+         "writers. Fault enumeration: every k in 1..evaluations for 12 targets (quick 1 shape, thorough 3), recording file object, retry scenario, plus potable with a formula leaving its "
+         "domain at first/interior/last grid point.",
+    ref="4 C17", technique="Lean trace-model proof + exhaustive fault-position enumeration on small grids",
+    note=NOTE_COMMON + "An 'evaluation' is one call of a model callable; the recording object stands for any destination with write()."),
+ "C18": dict(
+    text="Theorems: C18_at_points, C18_between(+bounds), C18_outside, sortRows_perm/_strict, C18_unsorted_ok, C18_xy_equiv, C18_plot. Correspondence: generated data files (comments, blank "
+         "lines, unsorted, with/without final newline) vs Atsim.tableReader; table forms via class and potable (x/y vs xy), zero outside, Richardson check of derivatives; plotToFile/plot rows.",
+    ref="4 C18", technique="Lean proofs about the legacy table reader + correspondence; SciPy contract tested",
+    note=NOTE_COMMON + "The cubic-spline half is a contract of SciPy's InterpolatedUnivariateSpline(ext=1): tested, not proved (partial)."),
+ "C19": dict(
+    text="Theorems: C19_gulp(+_last), C19_adp_prefix/_unscaled/_blocks, C19_funcfl_header, C19_funcfl_inverse (over R), rowsOf5_*, C19_excel_cells, C19_excel_pair_label. Correspondence: tracer "
+         "models through GULP (4 routes), eam_adp (class, potable), writeFuncFL, excel / excel_eam / excel_eam_fs (class, potable; read back with openpyxl).",
+    ref="4 C19", technique="Lean theorems about hand models + tracer correspondence",
+    note=NOTE_COMMON + "openpyxl storage trusted."),
+ "C20": dict(
+    text="Theorems: C20_detects_same_key(_exact) (a second key equal modulo embedded whitespace in the same section is rejected wherever it stands), C20_whitespace_examples, C20_dupPairs_iff, "
+         "C20_tables_iff, C20_registry(+_ok), C20_binding_example, shipped witness. Correspondence: every duplication operator on every entry of three base models (before/after), "
+         "additional items / --add-item duplicates; INI-level duplicate detection vs Atsim.readIni.",
+    ref="4 C20", technique="Lean proofs about duplicate detection + operator-driven outcome correspondence",
+    note=NOTE_COMMON + "configparser strict mode supplies option/section duplicate detection (modelled by readIni)."),
 }
 
 NOT_APPLICABLE = {}
